@@ -1,0 +1,19 @@
+//go:build verif
+
+package packets
+
+import "golang.org/x/net/bpf"
+
+// VerifClassicBPF returns the classic-BPF program installed for a PacketFilterSpec.
+func VerifClassicBPF(spec PacketFilterSpec) ([]bpf.RawInstruction, error) {
+	return getClassicBPFFilter(spec)
+}
+
+// VerifSetPacketIDCounter presets the process-wide packet ID counter.
+func VerifSetPacketIDCounter(v uint32) { curPacketID.Store(v) }
+
+// VerifGetPacketIDCounter reads the process-wide packet ID counter.
+func VerifGetPacketIDCounter() uint32 { return curPacketID.Load() }
+
+// VerifStripEthernetHeader exposes stripEthernetHeader.
+func VerifStripEthernetHeader(buf []byte) ([]byte, error) { return stripEthernetHeader(buf) }
